@@ -93,6 +93,7 @@ def _scenario(draw, tier):
             long_lat_p=draw(st.sampled_from([0.0, 0.0, 0.05, 0.3])),
             pipe_cap=draw(st.sampled_from([None, None, 256, 4096])),
             speed_spread=draw(st.sampled_from([1.0, 4.0, 4.0, 20.0])),
+            clock_res=draw(st.sampled_from([0.0, 0.0, 0.0, 0.0156])) if timed else 0.0,
         ))
     return dict(
         chain=kind, n=n, d=d, target=tspec, temps=temps, bounded=bounded,
@@ -290,7 +291,7 @@ def run_pt(sc, sched, canonical=False, want_trace=False):
     cfg = dict(canonical=canonical, max_yields=3_000_000 if sc.get("eval_cost", 0) < 100 else 60_000_000)
     if not canonical:
         cfg.update(stall_p=sched["stall_p"], long_lat_p=sched["long_lat_p"], pipe_cap=sched["pipe_cap"],
-                   speed_spread=sched["speed_spread"])
+                   speed_spread=sched["speed_spread"], clock_res=float(sched.get("clock_res") or 0.0))
     sim = kernel.Sim(sched["seed"] if not canonical else 0, cfg)
     mp = kernel.SimMP(sim)
     # timed-run progress watch: while run_for is in progress and its deadline has not passed, the main
@@ -489,6 +490,7 @@ def run_pt(sc, sched, canonical=False, want_trace=False):
         stats["fault_stall"] += sim.stats["stalls"]
         stats["fault_spurious_poll_timeout_long_latency"] += sim.stats["long_lat"]
         stats["fault_sender_blocked_on_full_pipe"] += sim.stats["send_blocked"]
+        stats["fault_coarse_clock_equal_readings"] += sim.stats["coarse_equal"]
         stats["fault_msgs_with_latency_jitter"] += sim.stats["msgs"]
         if sched["speed_spread"] > 1:
             stats["fault_unequal_process_speed_runs"] += 1
